@@ -645,6 +645,8 @@ def run_replica(sdir, reps, stage, e, infile, opts, src, wdir, stats, timeout=No
             with open(infile, "wb") as f:
                 f.write(orig)
         hist_old = (r0.get("out_raw"), r0.get("dep_raw"))
+        if os.path.exists(out):
+            os.utime(out, (12345, 12345))      # (to tell "left alone" from "rewritten with the same bytes" afterwards)
     for f in (out, dep):
         if hist_old is not None:
             continue        # whatever the earlier build left stays where it is
@@ -727,12 +729,11 @@ def run_replica(sdir, reps, stage, e, infile, opts, src, wdir, stats, timeout=No
     res = {"status": p.returncode, "stdout": p.stdout, "stderr": err, "out": None, "dep": None}
     old = (b"OLD CONTENT %d\n" % e["preexist"]) * (e["preexist"] // 14 + 1) if e.get("preexist", 0) > 0 else None
     old_dep = old
-    if hist_old is not None and res["status"] != 0:
-        old, old_dep = hist_old      # a failed run leaves the earlier files alone
     if os.path.exists(out):
         res["out"] = res["out_raw"] = open(out, "rb").read()
-        if res["out"] == old:
-            res["out"] = None       # left alone: the same as not having been there
+        if res["out"] == old or (hist_old is not None and res["status"] != 0 and os.stat(out).st_mtime == 12345):
+            res["out"] = None       # left alone (by a failed run, in the history case): the same as not having been there
+    # (the dependency file of an earlier build is compared as it is: it is written before the front end can fail, so every run rewrites it)
     if os.path.exists(dep):
         res["dep"] = res["dep_raw"] = open(dep, "rb").read()
         if res["dep"] == old_dep:
